@@ -99,7 +99,8 @@ def action_instances(game, rng: random.Random, per_type: int = 6) -> List[Tuple[
                     # nmap deliberately exposes only its three scan operations (its manager does not inherit the
                     # generic application requests): the generic verbs do not exist for it
                     # (nmap offers scan / close / fix like every application, but no execute of its own)
-                    cands.append(({"node_name": h, "application_name": a}, not (a == "nmap" and name == "node-application-execute")))
+                    # (likewise c2-server: it is driven by the c2-server-* actions and has no `execute` of its own)
+                    cands.append(({"node_name": h, "application_name": a}, not (a in ("nmap", "c2-server") and name == "node-application-execute")))
                 cands.append(({"node_name": h, "application_name": "no-such-app"}, False))
             elif name == "node-application-install":
                 for a in ("dos-bot", "database-client", "web-browser"):
